@@ -122,6 +122,9 @@ def hand_items(ids):
     items.append(Item("HCFrom", "newtype_from", attrs=[[("from", T.Vec(I("u8")), c1, False)]]))
     c2, c3 = f(), f()
     items.append(Item("HCTryFrom", "newtype_from", attrs=[[("try_from", T.String, c2, True)], [("validate", c3)]]))
+    # the two remaining spellings of container-level conversions: from by reference, try_from by value
+    items.append(Item("HCFromRef", "newtype_from", attrs=[[("from", T.String, f(), True)]]))
+    items.append(Item("HCTryFromVal", "newtype_from", attrs=[[("try_from", T.Vec(I("u8")), f(), False)]]))
     E("HUnitEnum", [Variant("Alpha"), Variant("BetaGamma"), Variant("delta", attrs=[[("rename", "D")]])])
     E("HUnitEnumCamel", [Variant("AlphaOne"), Variant("HTTPServer"), Variant("X2y")], [[("rename_all", "camelCase")]])
     E("HTagged", [Variant("A"), Variant("B", [Field("x", T.Bool), Field("y", I("u8"))]),
